@@ -270,7 +270,15 @@ class FortranAST:
                     for obj in added_entities:
                         parent_scope.children.remove(obj)
                     added_entities = []
+                    # Files that INCLUDE each other: never graft a scope below itself
+                    enclosing = []
+                    scope = parent_scope
+                    while scope is not None and scope not in enclosing:
+                        enclosing.append(scope)
+                        scope = scope.parent
                     for child in include_ast.inc_scope.children:
+                        if child in enclosing:
+                            continue
                         added_entities.append(child)
                         if parent_scope is not None:
                             parent_scope.add_child(child)
